@@ -2,8 +2,8 @@
 # tools/keep_seed.sh <Cxx> <name> "<caught by>" : verify the demo in the scratch worktree (fails with, passes without) and store the seed
 ID="$1"; NAME="$2"; CAUGHT="$3"; WT=/tmp/wt/$ID
 cd $WT || exit 2
-PYTHONPATH=$WT timeout 120 /venv/bin/python _out/demo.py >/dev/null 2>&1; WITH=$?
-git stash -q; PYTHONPATH=$WT timeout 120 /venv/bin/python _out/demo.py >/dev/null 2>&1; WITHOUT=$?; git stash pop -q
+PYTHONPATH=$WT timeout 180 /venv/bin/python _out/demo.py >/dev/null 2>&1; WITH=$?
+git diff -- asyncfix > /tmp/keep_seed_$$.diff; git apply -R /tmp/keep_seed_$$.diff; PYTHONPATH=$WT timeout 180 /venv/bin/python _out/demo.py >/dev/null 2>&1; WITHOUT=$?; git apply /tmp/keep_seed_$$.diff; rm -f /tmp/keep_seed_$$.diff
 echo "demo exit with change: $WITH, without: $WITHOUT"
 [ "$WITH" != "0" ] && [ "$WITHOUT" = "0" ] || { echo "demo does not discriminate"; exit 1; }
 D=/verif/seeded/$NAME; mkdir -p $D
